@@ -15,7 +15,9 @@ KINDS = list(I.CLS_OF.keys())
 ELEMENTS = ["Entity", "Activity", "Agent"]
 STRINGS = ["", "plain", 'quo"te', "two\nlines", "back\\slash", "tab\there", "ünïcødé", "\U0001F600 astral", "  spaced ",
            "<a&b>", "'single'", '"""', "a:b", "1", "true", 'multi\n"quoted" line', 'ends with a quote\n"',
-           'a\n"""\nb\\', "\n", "cr\r\nlf", "Ame\u0301lie \u212b"]
+           'a\n"""\nb\\', "\n", "cr\r\nlf", "Ame\u0301lie \u212b",
+           # legal XML 1.0 characters that "illegal character" tables often list: DEL, C1 controls, noncharacters
+           "It\x92s \x7f", "\ufdd0\U0001fffe"]
 INTS = [0, 1, -1, 7, 2**31, -2**63, 10**40, 255]
 FLOATS = [0.5, -2.25, 1e300, 5e-324, 0.1, 3.0, 123456.789, 1.7976931348623157e308, -0.0, 2.5e-8]
 TIMES = [("2012", "3", "31", "9", "21", "0", "0", "none"), ("2012", "3", "31", "9", "21", "0", "0", "0"),
@@ -26,6 +28,7 @@ TIME_STRS = ["2012-03-31T09:21:00", "2012-03-31T09:21:00Z", "2011-11-16T16:05:00
              "2012-03-04T05:06:07", "2013-10-02T00:00:00+02:00",
              "abc", "not a date"]
 N_VALID_TIME_STRS = 6
+FOREIGN_FORMAL_RATE = 0.04      # other_attrs: a PROV formal attribute name as an ordinary attribute (C10 switches it off: finding C10-F5)
 LANGS = ["en", "fr-CA", "x-klingon", "en-gb", "EN", "zh-hant-TW", "de-CH-X-Priv"]   # case as typed must survive: not all in the spelling RFC 5646 recommends
 FOREIGN_DT = [("ex", "http://example.org/", "MyType"), ("zz", "http://zz.test/", "T"), ("xsd", "http://www.w3.org/2001/XMLSchema#", "token"),
               ("xsd", "http://www.w3.org/2001/XMLSchema#", "QName")]
@@ -192,6 +195,13 @@ class Gen:
                                                    + ["generatedAtTime", "atTime", "typeOf", "labelled"])]
                 if rng.random() < 0.3:
                     nm = ["S", "prov:" + nm[3]]
+            elif with_prov and r < 0.3 + FOREIGN_FORMAL_RATE:
+                # a PROV attribute name that is formal for some kinds: on a record of another kind it is an ordinary
+                # attribute (with a value of the kind the name demands)
+                a = rng.choice(["time", "startTime", "endTime", "activity", "agent", "plan", "trigger", "generation"])   # (not prov:entity: on a membership it is the multi-valued path of finding C05-F1)
+                v = ["time"] + list(rng.choice(TIMES)) if a.endswith("ime") else self.ref_value(c, a)
+                out.append([["Q", "prov", PROV, a], v])
+                continue
             else:
                 nm = self.name(c, ATTR_LOCALS)
             out.append([nm, self.value(c)])
@@ -690,4 +700,29 @@ def subtype_programs(export=("ExportJson", "ExportProvn")):
     rec("Activity", ["Plan", "Revision"])
     for e in export:
         ops.append([e, "0"])
-    return [ops]
+    return [ops] + foreign_formal_programs(export)
+
+
+def foreign_formal_programs(export=("ExportJson", "ExportProvn")):
+    """fixed program: records holding, as an ordinary attribute, a PROV attribute name that is formal for other kinds only
+    (prov:time on an association, prov:activity on an entity, prov:plan on a generation, prov:entity on an agent ...), in
+    a document and in a bundle: every export must carry the pair"""
+    EXU = "http://example.org/"
+    t = ["time", "2012", "3", "31", "9", "21", "0", "0", "none"]
+
+    def q(l):
+        return ["Q", "prov", PROV, l]
+    recs = [("Association", "ex:as", [[q("activity"), ["str", "ex:a"]], [q("agent"), ["str", "ex:ag"]], [q("time"), t]]),
+            ("Influence", "ex:inf", [[q("influencee"), ["str", "ex:e"]], [q("influencer"), ["str", "ex:a"]], [q("activity"), ["str", "ex:a2"]]]),
+            ("Agent", "ex:ag", [[q("entity"), ["str", "ex:e"]], [["S", "ex:k"], ["int", "1"]], [q("time"), t]]),
+            ("Entity", "ex:e", [[q("agent"), ["str", "ex:ag"]], [q("startTime"), t], [q("activity"), ["str", "ex:a1"]]]),
+            ("Activity", "ex:a", [[q("entity"), ["str", "ex:e"]], [q("time"), t], [q("plan"), ["str", "ex:p"]]]),
+            ("Generation", "ex:g", [[q("entity"), ["str", "ex:e"]], [q("activity"), ["str", "ex:a"]], [q("plan"), ["str", "ex:p1"]], [q("agent"), ["str", "ex:ag"]]]),
+            ("Usage", "none", [[q("activity"), ["str", "ex:a"]], [q("entity"), ["str", "ex:e"]], [q("plan"), ["str", "ex:p"]], [q("endTime"), t]])]
+    p = [["NewDoc"], ["AddNs", ["d", "0"], "ex", EXU], ["NewBundle", "0", ["S", "ex:b"]]]
+    for kind, ident, attrs in recs:
+        p.append(["NewRecord", ["d", "0"], kind, "none" if ident == "none" else ["S", ident], attrs])
+        p.append(["NewRecord", ["b", "0", "0"], kind, "none" if ident == "none" else ["S", ident], attrs])
+    for e in export:
+        p.append([e, "0"])
+    return [p]
